@@ -58,6 +58,29 @@ def cases(tier, seed):
     for e in muts:
         for _ in range(3 if tier == 'quick' else 60):
             add(e, doc(), ('builtin', 'unordered') if any(t in e for t in ('shuffle', 'each', 'spread', 'keys', '*', 'merge', 'sift')) else ('builtin',))
+    # every array function that could work in place, on EVERY permutation of small arrays taken straight from the
+    # document (and from a registered variable): the caller's arrays must keep their order
+    import itertools
+    inplace = ['$sort(nums, function($l, $r){$l > $r})', '$sort(nums, function($l, $r){$l < $r})', '$sort(nums)', '$reverse(nums)', '$shuffle(nums)', '$append(nums, 9)', '$append(nums, nums)', '$distinct(nums)',
+               '$zip(nums, nums)', 'nums^($)', 'nums^(>$)', '$filter(nums, function($x){$x > 1})', '$map(nums, function($x){$x})', '$reduce(nums, function($p, $q){$p + $q})', '$sort(objs, function($l, $r){$l.v > $r.v})',
+               'objs^(v)', 'objs^(>v)', '$reverse(objs)', '$sort(nums, function($l, $r){$l > $r}) ~> $reverse()', '$max(nums)', '$sum(nums)', '$join($sort(strs))', '$sort(strs, function($l, $r){$l > $r})', 'nums[[2,0]]',
+               '$sort(nums, function($l, $r){$error("stop")})', '$sort(nums, function($l, $r){$l.x > $r})', 'objs{$string(v): $}', '$merge(objs)', '$sort($append(nums, []), function($l, $r){$l > $r})']
+    perms = [list(p) for m in (2, 3, 4) for p in itertools.permutations(range(1, m + 1))] + [[1, 1, 2], [2, 1, 1], [1, 2, 1], [3, 1, 3, 2], [1, 2, 3, 4, 5, 0]]
+    for e in inplace:
+        for pm in (perms if tier != 'quick' else rng.sample(perms, 9)):
+            d = {'nums': pm, 'objs': [{'v': x, 'i': i} for i, x in enumerate(pm)], 'strs': [str(x) for x in pm]}
+            tags = ('inplace', 'unordered') if 'shuffle' in e or 'merge' in e else ('inplace',)
+            add(e, d, tags)
+            if rng.random() < 0.35:
+                n += 1
+                out.append({'id': 'c%d' % n, 'kind': 'eval', 'expr': e.replace('nums', '$reg.nums').replace('objs', '$reg.objs').replace('strs', '$reg.strs'), 'input': {}, 'vars': {'reg': d}, 'tags': list(tags) + ['registered']})
+    # transforms and updates through a registered variable
+    for i in range(60 if tier == 'quick' else 3000):
+        d = doc()
+        e = rng.choice(['$reg ~> |list|{"z": 1}, "k"|', '$reg.list ~> |$|{"v": v + 1}|', '$reg ~> |a|{"b": 9}|', '$ ~> |$reg.list|{"z": 1}|', '($v := $reg.a; $reg ~> |$v|{"z": 1}|)', '$sort($reg.list, function($l, $r){$l.v > $r.v})',
+                        '$append($reg.list, $reg.a)', '$reg.list[v > 3] ~> |$|{"hit": true}|', '$map($reg.list, |$|{"m": 1}|)', '$reg.list^(>v)'])
+        n += 1
+        out.append({'id': 'c%d' % n, 'kind': 'eval', 'expr': e, 'input': d, 'vars': {'reg': doc()}, 'tags': ['registered', 'transform']})
     for i in range(1500 if tier == 'quick' else 80000):
         g = Gen(rng, chaos=0.1, deny=('random',))
         add(g.program(rng.randint(1, 4)), rng.choice([doc(), gen_doc(rng, 3, 3)]), ('generated', 'novalue'))
@@ -65,7 +88,7 @@ def cases(tier, seed):
 
 def run(tier, seed, replay=None):
     return simple_run('C07', tier, seed, replay,
-        'transforms with context-relative patterns, updates and deletes (valid and ill-typed; updates and delete lists that differ per matched object), applied through ~>, $map, chains, bound to variables and called directly with wrong argument '
+        'every array function that could work in place on every permutation of small arrays taken straight from the document and from a registered variable; transforms with context-relative patterns, updates and deletes (valid and ill-typed; updates and delete lists that differ per matched object), applied through ~>, $map, chains, bound to variables and called directly with wrong argument '
         'counts/types; built-ins that could reorder in place ($sort, $reverse, $append, $shuffle, $zip, $merge, $distinct, order-by, grouping); generated programs over every node type; '
         'documents with nulls, empty containers and nested objects; after every evaluation (successful or failing) the caller\'s document is deep-compared with a copy taken before, '
         'and the transform result is compared with the model; distinct = distinct (expression, input)',
